@@ -55,6 +55,7 @@ def run(ctx):
         sessions.append(({}, [("chunk", stream)], ops))
     res = rx.run_sessions(ctx, "session:recv_frame", sessions)
     specs = rx.spec_decode_all([b"".join(f.enc() for f in frames) for frames in sts])
+    legal_q = []
     for frames, (impl, model, ws, sock, line), (dec, rest) in zip(sts, res, specs):
         outs = rx.results(impl)
         nontriv = any(len(f.data) > 0 or f.mask for f in frames)
@@ -77,7 +78,10 @@ def run(ctx):
                     ctx.violate("frame-equals-rfc-decoding", f"wrong-{field}", inp, d, o, size=len(frames[k].data) + 10 * len(frames))
                     break
             elif o == "X:PROTO":
-                continue      # legality is C05's business; consumption is checked by the frames that follow
+                # WHICH frames are illegal is C05's business; but a frame the RFC allows in some context must be yielded
+                f = frames[k]
+                legal_q.append((inp, d, f, len(frames)))
+                continue      # consumption is checked by the frames that follow
             else:
                 ctx.violate("frame-equals-rfc-decoding", "unexpected-" + o[:20], inp, d, o, size=len(frames[k].data) + 10 * len(frames))
                 break
@@ -85,6 +89,18 @@ def run(ctx):
             if outs[len(frames)] != "X:CLOSED":
                 ctx.violate("exact-consumption", "bytes-left-or-overread", inp, "X:CLOSED after the last frame", outs[len(frames)],
                             size=10 * len(frames))
+
+
+    # frames answered with PROTO: acceptable only if Spec.frameLegal rejects them both inside and outside a message
+    lines = []
+    for inp, d, f, n in legal_q:
+        r1, r2, r3 = (f.rsv >> 2) & 1, (f.rsv >> 1) & 1, f.rsv & 1
+        for inmsg in (0, 1):
+            lines.append(f"s-frame-legal {inmsg} {f.fin} {r1} {r2} {r3} {f.op} {common.hexarg(f.data)}")
+    out = common.run_driver_parallel(lines) if lines else []
+    for i, (inp, d, f, n) in enumerate(legal_q):
+        if "1" in (out[2 * i], out[2 * i + 1]):
+            ctx.violate("frame-equals-rfc-decoding", "legal-frame-rejected", inp, d, "X:PROTO", size=len(f.data) + 10 * n)
 
 
 def search(ctx):
